@@ -100,6 +100,9 @@ func (r *c09Reader) Read(p []byte) (int, error) {
 		if len(r.cyc) > 0 {
 			c := r.cyc[r.cyci%len(r.cyc)]
 			r.cyci++
+			if c == 0 {
+				return 0, nil // an empty read: allowed by io.Reader ("does not indicate EOF"), what an io.Pipe hands out for an empty write
+			}
 			if c < 1 {
 				c = 1
 			}
@@ -737,7 +740,7 @@ func TestVerifC09Sweep(t *testing.T) {
 			variants = append(variants, "msg", "dec")
 		}
 		for _, v := range variants {
-			for _, cyc := range [][]int{nil, {3, 4096}, {511, 1, 513}} {
+			for _, cyc := range [][]int{nil, {3, 4096}, {511, 1, 513}, {0, 2, 0, 4096}} {
 				run := c09Execute(v, s, stream, bodies, false, cyc)
 				atomic.AddInt64(&evals, 1)
 				if !c09Equal(run.Obs, exp) {
